@@ -786,3 +786,163 @@ def kernel_sig(repo, res):
     res.ob(key)
     if repo.header_text().count("<HEADER_DECL>") != 1 or repo.header_text().count("</HEADER_DECL>") != 1:
         res.fail(key, "ufcx.h lacks the <HEADER_DECL> markers jit.py splits on", "ffcx/codegeneration/ufcx.h", props=("C20",))
+
+
+@rule(
+    "EXPR-COEF-POS",
+    ["C04", "C05"],
+    "_compute_expression_ir receives (processed expression, points, original expression), built in that order by "
+    "analyze_ufl_objects. original_coefficient_positions must hold, for every coefficient of the *processed* "
+    "expression in its numbering order, its index among the coefficients of the *original* expression "
+    "(reaching definitions decide which tuple component each name holds where it is used)",
+    min_instances=4,
+)
+def expr_coef_pos(repo, res):
+    from ..cfg import CFG, reaching_definitions
+
+    an = repo.mod("ffcx.analysis")
+    f = an.func("analyze_ufl_objects")
+    res.functions.add(f.key)
+    key = f"{f.key}:expression-triple"
+    res.ob(key)
+    src = ast.unparse(f.node)
+    mm = re.search(r"(\w+) = _analyze_expression\((\w+), scalar_type\)\n\s+(\w+) \+= \[\((\w+), (\w+), (\w+)\)\]", src)
+    if not mm:
+        raise AnalysisError("analyze_ufl_objects: construction of the processed-expression triple not recognised")
+    if not (mm.group(4) == mm.group(1) and mm.group(6) == mm.group(2)):
+        res.fail(key, f"expression triple is ({mm.group(4)}, {mm.group(5)}, {mm.group(6)}), not (processed, points, original)", an.line(f.node))
+    rep = repo.mod("ffcx.ir.representation")
+    g = rep.func("_compute_expression_ir")
+    res.functions.add(g.key)
+    cfg = CFG(g.node)
+    IN, _ = reaching_definitions(cfg, set(g.params))
+    byid = {n.id: n for n in cfg.nodes}
+    param = g.params[0]
+
+    def component(name, nid, depth=0):
+        """Which component of the parameter tuple does `name` hold at node nid? -> set of ints / '?'."""
+        out = set()
+        for d in IN[nid].get(name, ()):
+            if d == -1:
+                out.add("tuple")
+                continue
+            a = byid[d].ast
+            if isinstance(a, ast.Assign) and isinstance(a.value, ast.Subscript) and isinstance(a.value.value, ast.Name) \
+                    and isinstance(a.value.slice, ast.Constant):
+                base = component(a.value.value.id, d, depth + 1) if depth < 5 else {"?"}
+                out.add(a.value.slice.value if base == {"tuple"} else "?")
+            else:
+                out.add("?")
+        return out
+
+    def extract_arg_component(call_node_holder, call):
+        nid = [n.id for n in cfg.stmt_nodes_containing(call)]
+        if not nid or not call.args or not isinstance(call.args[0], ast.Name):
+            return {"?"}
+        return component(call.args[0].id, nid[0])
+
+    # the append site
+    key = f"{g.key}:original_coefficient_positions"
+    res.ob(key)
+    app = [c for c in calls_in(g.node) if (call_name(c) or "") == "original_coefficient_positions.append"]
+    if len(app) != 1:
+        raise AnalysisError("_compute_expression_ir: original_coefficient_positions.append not found exactly once")
+    arg = app[0].args[0]
+    if not (isinstance(arg, ast.Call) and isinstance(arg.func, ast.Attribute) and arg.func.attr == "index" and isinstance(arg.func.value, ast.Name)
+            and len(arg.args) == 1 and isinstance(arg.args[0], ast.Name)):
+        res.fail(key, f"appended position is `{ast.unparse(arg)}`, not <coefficients of the original expression>.index(coeff)", rep.line(app[0]))
+        return
+    lst, item = arg.func.value.id, arg.args[0].id
+    loop = [n for n in ast.walk(g.node) if isinstance(n, ast.For) and any(x is app[0] for x in ast.walk(n))]
+    if not loop or not (isinstance(loop[-1].target, ast.Name) and loop[-1].target.id == item and isinstance(loop[-1].iter, ast.Name)):
+        res.fail(key, "positions are not appended once per coefficient of a plain loop over the processed coefficients", rep.line(app[0]))
+        return
+    iter_name = loop[-1].iter.id
+    site = [n.id for n in cfg.stmt_nodes_containing(app[0])][0]
+
+    def source_of(listname, nid):
+        """Component of the tuple whose extract_coefficients(...) defines listname at nid."""
+        outs = set()
+        for d in IN[nid].get(listname, ()):
+            a = byid[d].ast if d in byid else None
+            if isinstance(a, ast.Assign) and isinstance(a.value, ast.Call) and (call_name(a.value) or "").endswith("extract_coefficients") \
+                    and a.value.args and isinstance(a.value.args[0], ast.Name):
+                outs |= component(a.value.args[0].id, d)
+            else:
+                outs.add("?")
+        return outs
+
+    head = [n.id for n in cfg.nodes if n.ast is loop[-1] and n.kind == "test"]
+    src_list = source_of(lst, site)
+    src_iter = source_of(iter_name, head[0] if head else site)
+    if src_list != {2}:
+        res.fail(key, f"positions are indices into extract_coefficients(<tuple component {sorted(map(str, src_list))}>) instead of the original "
+                 "expression (component 2): after preprocessing removed a coefficient (Dx(g + kappa, 0), kappa in DG0) the caller packs w with "
+                 "the wrong functions", rep.line(app[0]))
+    if src_iter != {0}:
+        res.fail(key, f"positions are listed for extract_coefficients(<tuple component {sorted(map(str, src_iter))}>) instead of the processed "
+                 "expression's coefficients (component 0), which is what the kernel's w numbering follows", rep.line(app[0]))
+    # numbering follows the same list
+    key = f"{g.key}:numbering-same-list"
+    res.ob(key)
+    num = re.search(r"for (\w+), (\w+) in enumerate\((\w+)\):\n\s+coefficient_numbering\[\2\] = \1", ast.unparse(g.node))
+    if not num or num.group(3) != iter_name:
+        res.fail(key, "coefficient_numbering does not enumerate the list original_coefficient_positions is built for", rep.line(g.node))
+    key = f"{g.key}:stored"
+    res.ob(key)
+    if not re.search(r"\['original_coefficient_positions'\] = original_coefficient_positions\b", ast.unparse(g.node)):
+        res.fail(key, "the computed positions are not what is stored in the IR", rep.line(g.node))
+
+
+@rule(
+    "FORM-KERNEL-ALIGN",
+    ["C06", "C18"],
+    "in both backends' form generators, form_integrals and form_integral_ids are emitted with one entry per kernel "
+    "(integral group x cell type): each is a comprehension over zip(integrals.<names|ids>, integrals.domains) with an "
+    "inner clause over that group's domain list - the multiplicity form_integral_offsets counts (sum of len(domains))",
+    min_instances=4,
+)
+def form_kernel_align(repo, res):
+    for be in ("C", "numba"):
+        m = repo.mod(f"ffcx.codegeneration.{be}.form")
+        g = m.func("generator")
+        res.functions.add(g.key)
+        for slot, field in (("form_integrals_init", "names"), ("form_integral_ids_init", "ids")):
+            key = f"{g.key}:{slot}:one-entry-per-kernel"
+            res.ob(key)
+            # the assignment d[slot] = f"...{values}..." and the definition of `values` right before it (same block)
+            found = None
+            for blk in ast.walk(g.node):
+                body = getattr(blk, "body", None)
+                if not isinstance(body, list):
+                    continue
+                for seq in (body, getattr(blk, "orelse", []) or []):
+                    for i, st in enumerate(seq):
+                        if isinstance(st, ast.Assign) and isinstance(st.targets[0], ast.Subscript) and isinstance(st.targets[0].slice, ast.Constant) \
+                                and st.targets[0].slice.value == slot and isinstance(st.value, ast.JoinedStr):
+                            names = {n.id for n in ast.walk(st.value) if isinstance(n, ast.Name)}
+                            for prev in reversed(seq[:i]):
+                                if isinstance(prev, ast.Assign) and isinstance(prev.targets[0], ast.Name) and prev.targets[0].id in names \
+                                        and any(isinstance(x, (ast.GeneratorExp, ast.ListComp)) for x in ast.walk(prev.value)):
+                                    found = (st, prev)
+                                    break
+            if found is None:
+                raise AnalysisError(f"{be} form generator: emission of {slot} from a comprehension not recognised")
+            st, prev = found
+            comp = [x for x in ast.walk(prev.value) if isinstance(x, (ast.GeneratorExp, ast.ListComp))][0]
+            gens = comp.generators
+            it0 = ast.unparse(gens[0].iter).replace(" ", "")
+            ok0 = it0 in (f"zip(integrals.{field},integrals.domains)",) and isinstance(gens[0].target, ast.Tuple) and len(gens[0].target.elts) == 2
+            if not ok0:
+                res.fail(key, f"{be}: {slot} is built from `{ast.unparse(gens[0].iter)}`, not from zip(integrals.{field}, integrals.domains)", m.line(prev),
+                         props=("C06", "C18") if be == "C" else ("C18",))
+                continue
+            dom_var = ast.unparse(gens[0].target.elts[1])
+            val_var = ast.unparse(gens[0].target.elts[0])
+            if len(gens) != 2 or ast.unparse(gens[1].iter) != dom_var:
+                res.fail(key, f"{be}: {slot} has one entry per integral group, not one per kernel: a group with several cell types (ds on a prism: "
+                         "triangle and quadrilateral facets) makes the list shorter than form_integrals / the offsets, so lookups by "
+                         "(type, id, cell type) pick another kernel or run past the end", m.line(prev), props=("C06", "C18") if be == "C" else ("C18",))
+                continue
+            if val_var not in {n.id for n in ast.walk(comp.elt) if isinstance(n, ast.Name)}:
+                res.fail(key, f"{be}: entries of {slot} do not use `{val_var}`", m.line(prev), props=("C06", "C18") if be == "C" else ("C18",))
